@@ -1225,6 +1225,10 @@ def c06_cxx_cases():
             body.append("xrmi 0 0" if aty != 1 else "xrmi 0 0")
             body += ["xpath %s" % q for q in ["0/%d" % i for i in range(n - 1)]] + ["dump", "destroy"]
             cases.append("\n".join(body) + "\n")
+    # a long list under a global C++ locale that groups digits: the index in the reported path is a plain number (F21)
+    body = ["init", "xinit", "xgrouploc", "xadd . %s 8" % hx(b"l")] + ["xadd 0 - 2"] * 1002 + \
+           ["xpath 0/999", "xpath 0/1000", "xpath 0/1001", "xidx 0 1000", "destroy"]
+    cases.append("\n".join(body) + "\n")
     return cases
 
 
